@@ -4,15 +4,19 @@ import GrassProofs.Lemmas.SelWalk
 import GrassProofs.Lemmas.ExtSem
 import GrassProofs.Lemmas.ExtComplex
 import GrassProofs.Lemmas.ExtChain
+import GrassProofs.Lemmas.ExtWeave
 import GrassProofs.C11
 /-
   C10 — @extend makes extenders match wherever the target matched, nothing else.
 
   Theorems are about the specified variant (`Switches.spec`); the as-found switches only appear in
-  the `C10_asFound_…` witnesses.  PARTIAL: the model covers selectors without selector pseudos and
-  extenders that are (lists of) single compounds; `weave`/`unify_complex` for complex extenders,
-  `extend_pseudo` and extension chains are not modelled (`C10_full` below stays open) — they are
-  covered by the semantic search on the implementation only.
+  the `C10_asFound_…` witnesses.  PARTIAL: the theorems cover selectors without selector pseudos and
+  extenders that are (lists of) single compounds, applied once or as a chain of re-extensions
+  (`C10_extend_chain_n`).  `weave`/`unify_complex` for complex extenders are modelled (`weaveTop`,
+  `runX`) and compared with grass, but their soundness is open (`C10_weave_sound_full`);
+  `extend_existing_extensions` is modelled in `runX` (chains/cycles of single-compound extenders as whole
+  stylesheets, compared as text with grass); `extend_pseudo` is not modelled (`C10_full` below stays open) —
+  it is covered by the semantic search on the implementation only.
 -/
 namespace Grass.Extend
 open Grass.Selector
@@ -911,5 +915,354 @@ private def extXB : Ext := ⟨[.cls ['b']], .cls ['a'], false, none⟩
 example : extendCompound Switches.spec [extXB] [extXB] none true [.type ['t'], .cls ['a'], .cls ['x']]
     = .ok (some [[.compound [.type ['t'], .cls ['a'], .cls ['x']]], [.compound [.type ['t'], .cls ['x'], .cls ['b']]]]) := by
   decide +kernel
+
+
+/-! ### chains of any length: `E₁ {@extend .n₁}`, `E₂ {@extend .n₂}`, … applied one after the other -/
+
+/-- one re-extension step read as plain matching in the relabelled context: a list `l` (no selector
+    pseudo) re-extended — as `extend_existing_selectors` (mod.rs:1125) does — by `E {@extend .n}`
+    matches `p` iff `l` matches `p` with class `n` added to every element matched by `E` -/
+theorem extendList_tau (sw : Switches) (hsw : sw.supAsFound = false) (e : Ext) (all : List Ext) (n : Name)
+    (ht : e.target = .cls n) (hE : e.extender ≠ []) (hn : noSelC e.extender = true)
+    (m : Option Nat) (l out : List Flagged) (hl : ∀ x ∈ l, noSelX x.1 = true)
+    (h : extendList sw [e] all m l = .ok out) (p : Ctx) :
+    matchesList (out.map (·.1)) p = matchesList (l.map (·.1)) (tau (addCls e.extender n) p) := by
+  have hcomp : ∀ (X : Complex), noSelX X = true → ∀ c, Component.compound c ∈ X → noSelC c = true := by
+    intro X hX c hc
+    have := (List.all_eq_true.1 hX) _ hc
+    simpa using this
+  rw [extendList_sem sw hsw e all hE m l out hl h p, ht]
+  unfold cList matchesList
+  rw [Bool.eq_iff_iff, List.any_eq_true, List.any_eq_true]
+  have key : ∀ X ∈ l.map (·.1), cComplex (credit1 e.extender (.cls n)) X p =
+      matchesComplex X (tau (addCls e.extender n) p) := by
+    intro X hX
+    simp only [List.mem_map] at hX
+    obtain ⟨x, hx, rfl⟩ := hX
+    rw [cComplex_eq_g, matchesComplex_eq_g]
+    exact (complex_tau mComp _ _ x.1 (fun c hc q => mComp_tau e.extender n hn c q (hcomp x.1 (hl x hx) c hc)) p).symm
+  constructor
+  · rintro ⟨X, hX, hm⟩; exact ⟨X, hX, by rw [← key X hX]; exact hm⟩
+  · rintro ⟨X, hX, hm⟩; exact ⟨X, hX, by rw [key X hX]; exact hm⟩
+
+/-- a run of successive single-compound extensions with class targets: every step is `extend_list`
+    (mod.rs:199) of the current selector by one extension; explicit guards per step (decidable) -/
+inductive ChainRun (sw : Switches) (m : Option Nat) : List (Ext × Name × List Ext) → List Flagged → List Flagged → Prop
+  | nil (l : List Flagged) : ChainRun sw m [] l l
+  | cons (e : Ext) (n : Name) (all : List Ext) (rest : List (Ext × Name × List Ext)) (l l' l'' : List Flagged) :
+      e.target = .cls n → e.extender ≠ [] → noSelC e.extender = true → (∀ x ∈ l, noSelX x.1 = true) →
+      extendList sw [e] all m l = .ok l' → ChainRun sw m rest l' l'' → ChainRun sw m ((e, n, all) :: rest) l l''
+
+/-- the context in which the elements matched by the last extender carry its target class, then the
+    elements matched (in that context) by the one before carry its class, … back to the first -/
+def tauChain : List (Ext × Name × List Ext) → Ctx → Ctx
+  | [], p => p
+  | (e, n, _) :: rest, p => tau (addCls e.extender n) (tauChain rest p)
+
+/-- **chains of any length** (single-compound extenders, class targets, no selector pseudos): after
+    `k` successive re-extensions the selector matches a context iff the ORIGINAL selector matches the
+    context relabelled through the whole chain — "exactly as if those elements additionally matched
+    the target", hop by hop, for every `k` (induction over the chain; `C10_extend_two_step` is `k = 2`). -/
+theorem C10_extend_chain_n (sw : Switches) (hsw : sw.supAsFound = false) (m : Option Nat)
+    (steps : List (Ext × Name × List Ext)) (l out : List Flagged) (h : ChainRun sw m steps l out) (p : Ctx) :
+    matchesList (out.map (·.1)) p = matchesList (l.map (·.1)) (tauChain steps p) := by
+  induction h generalizing p with
+  | nil l => rfl
+  | cons e n all rest l l' l'' ht hE hn hl hx _ ih =>
+    rw [ih p, extendList_tau sw hsw e all n ht hE hn m l l' hl hx (tauChain rest p)]
+    rfl
+
+-- non-vacuity: `.a` extended by `.b {@extend .a}`, `.c {@extend .b}`, `.d {@extend .c}` (three hops)
+private def cA : Ext := ⟨[.cls ['b']], .cls ['a'], false, none⟩
+private def cB : Ext := ⟨[.cls ['c']], .cls ['b'], false, none⟩
+private def cC : Ext := ⟨[.cls ['d']], .cls ['c'], false, none⟩
+private def l0 : List Flagged := [([.compound [.cls ['a']]], true)]
+private def l1 : List Flagged := [([.compound [.cls ['a']]], true), ([.compound [.cls ['b']]], false)]
+private def l2 : List Flagged := l1 ++ [([.compound [.cls ['c']]], false)]
+private def l3 : List Flagged := l2 ++ [([.compound [.cls ['d']]], false)]
+example : ChainRun Switches.spec none [(cA, ['a'], [cA]), (cB, ['b'], [cA, cB]), (cC, ['c'], [cA, cB, cC])] l0 l3 :=
+  .cons _ _ _ _ l0 l1 l3 rfl (by decide) (by decide) (by decide) (by decide +kernel)
+    (.cons _ _ _ _ l1 l2 l3 rfl (by decide) (by decide) (by decide) (by decide +kernel)
+      (.cons _ _ _ _ l2 l3 l3 rfl (by decide) (by decide) (by decide) (by decide +kernel) (.nil l3)))
+
+/-! ### `weave` -/
+
+/-- **`weave` on single-component paths is concatenation**: when every extender on a path of
+    `extend_complex` (mod.rs:314) is a single compound, the model of `weave` (functions.rs:68, with any
+    `weave_parents`) returns exactly the concatenation — the step `extendComplex` (and with it
+    `C10_extend_single_compound_iff`) takes for granted. -/
+theorem C10_weave_singletons_concat (sib : Bool) (path : List Complex) (hne : path ≠ [])
+    (h : ∀ x ∈ path, ∃ c, x = [c]) : weaveTop sib path = [path.flatMap id] :=
+  weaveWith_singletons _ path hne h
+
+example : weaveTop true [[.compound [.cls ['a']]], [.comb .child], [.compound [.cls ['b']]]]
+    = [[.compound [.cls ['a']], .comb .child, .compound [.cls ['b']]]] :=
+  C10_weave_singletons_concat true _ (by simp) (by simp)
+
+/-! ### C10-X3: `merge_final_combinators` with `~` against `+` (functions.rs:450–486) -/
+
+private def xF : Compound := [.attr ['t'] none, .pclass ['f']]
+private def xB : Compound := [.type ['b']]
+private def xY : Compound := [.cls ['y']]
+private def xT : Compound := [.type ['a']]
+private def xP1 : Complex := [.compound xF, .comb .next, .compound xB, .comb .next]      -- `[t]:f + b +`
+private def xP2 : Complex := [.compound xY, .comb .later]                                  -- `.y ~`
+/-- the element `a` preceded by `b`, `c.y`, `c[t=v]:f` (nearest first) -/
+private def xCtx : Ctx :=
+  ⟨⟨⟨['a'], none, [], [], [], none⟩,
+    [⟨['b'], none, [], [], [], none⟩, ⟨['c'], none, [['y']], [], [], none⟩, ⟨['c'], none, [], [(['t'], ['v'])], [['f']], none⟩]⟩, []⟩
+
+/-- C10-X3 as found: weaving the parents `[t]:f + b +` and `.y ~` yields `[t]:f + .y ~ b +`, which (before
+    the target `a`) matches a context that `[t]:f + b + a` does not match — `.y` was put between two
+    components that must be adjacent.  The specified variant (`sibAsFound = false`) keeps only the
+    unified alternative `[t]:f + b.y +`. -/
+theorem C10_asFound_weave_sibling_unsound :
+    weaveParentsTop true xP1 xP2 = some
+      [[.compound xF, .comb .next, .compound xY, .comb .later, .compound xB, .comb .next],
+       [.compound xF, .comb .next, .compound [.type ['b'], .cls ['y']], .comb .next]] ∧
+    matchesComplex ([.compound xF, .comb .next, .compound xY, .comb .later, .compound xB, .comb .next] ++ [.compound xT]) xCtx = true ∧
+    matchesComplex (xP1 ++ [.compound xT]) xCtx = false ∧
+    weaveParentsTop false xP1 xP2 = some [[.compound xF, .comb .next, .compound [.type ['b'], .cls ['y']], .comb .next]] := by
+  decide +kernel
+
+/-! ### second law as `trim` implements it -/
+
+theorem pullOut_keeps (c1 : Complex) :
+    ∀ (n : Nat) (result : List Flagged) (f : Flagged) (rest : List Flagged),
+      pullOut c1 n result = some (f, rest) → ∀ x, x ∈ result → x ∈ f :: rest := by
+  intro n
+  induction n with
+  | zero => intro result f rest h; simp [pullOut] at h
+  | succ n ih =>
+    intro result f rest h x hx
+    cases result with
+    | nil => simp [pullOut] at h
+    | cons r rs =>
+      unfold pullOut at h
+      split at h
+      · injection h with h; injection h with h1 h2; subst h1 h2; exact hx
+      · split at h
+        · rename_i f' rest' hp
+          injection h with h; injection h with h1 h2; subst h1 h2
+          have := ih rs f' rest' hp
+          rcases List.mem_cons.1 hx with e | hx
+          · simp [e]
+          · rcases List.mem_cons.1 (this x hx) with e | h2
+            · simp [e]
+            · simp [h2]
+        · cases h
+
+theorem trimGo_keeps (sup : Complex → Complex → Bool) (srcSpec : Simple → Nat) :
+    ∀ (rest result : List Flagged) (n : Nat) (x : Flagged),
+      x ∈ result → x ∈ trimGo sup srcSpec rest result n := by
+  intro rest
+  induction rest with
+  | nil => intro result n x h; simpa [trimGo] using h
+  | cons y earlier ih =>
+    intro result n x h
+    obtain ⟨c1, fl⟩ := y
+    cases fl with
+    | true =>
+      unfold trimGo
+      split
+      · rename_i f rest' hp
+        exact ih _ _ x (pullOut_keeps c1 n result f rest' hp x h)
+      · exact ih _ _ x (List.mem_cons_of_mem _ h)
+    | false =>
+      unfold trimGo
+      simp only
+      split
+      · exact ih _ _ x h
+      · exact ih _ _ x (List.mem_cons_of_mem _ h)
+
+theorem trimGo_floor (sup : Complex → Complex → Bool) (srcSpec : Simple → Nat) :
+    ∀ (rest result : List Flagged) (n : Nat) (x : Flagged), x ∈ rest →
+      x ∈ trimGo sup srcSpec rest result n ∨
+      (x.2 = true ∧ ∃ y ∈ trimGo sup srcSpec rest result n, y.1 = x.1) ∨
+      (x.2 = false ∧ ∃ y, (y ∈ rest ∨ y ∈ result) ∧ y.1.minSpecificity ≥ maxSourceSpec srcSpec x.1 ∧ sup y.1 x.1 = true) := by
+  intro rest
+  induction rest with
+  | nil => intro result n x h; cases h
+  | cons y earlier ih =>
+    intro result n x hx
+    obtain ⟨c1, fl⟩ := y
+    rcases List.mem_cons.1 hx with e | hx'
+    · subst e
+      cases fl with
+      | true =>
+        unfold trimGo
+        split
+        · rename_i f rest' hp
+          obtain ⟨e, _⟩ := pullOut_sem c1 ⟨⟨⟨[], none, [], [], [], none⟩, []⟩, []⟩ n result f rest' hp
+          exact Or.inr (Or.inl ⟨rfl, f, trimGo_keeps sup srcSpec _ _ _ f (by simp), e⟩)
+        · exact Or.inl (trimGo_keeps sup srcSpec _ _ _ _ (by simp))
+      | false =>
+        unfold trimGo
+        simp only
+        split
+        · rename_i hcov
+          simp only [Bool.or_eq_true, List.any_eq_true, Bool.and_eq_true, decide_eq_true_eq] at hcov
+          rcases hcov with ⟨c2, h2, hs, hp⟩ | ⟨c2, h2, hs, hp⟩
+          · exact Or.inr (Or.inr ⟨trivial, c2, Or.inr h2, hs, hp⟩)
+          · exact Or.inr (Or.inr ⟨trivial, c2, Or.inl (List.mem_cons_of_mem _ h2), hs, hp⟩)
+        · exact Or.inl (trimGo_keeps sup srcSpec _ _ _ _ (by simp))
+    · have widen : ∀ (result' : List Flagged), (∀ y, y ∈ result' → y = (c1, fl) ∨ y ∈ result) →
+          (x.2 = false ∧ ∃ y, (y ∈ earlier ∨ y ∈ result') ∧ y.1.minSpecificity ≥ maxSourceSpec srcSpec x.1 ∧ sup y.1 x.1 = true) →
+          (x.2 = false ∧ ∃ y, (y ∈ (c1, fl) :: earlier ∨ y ∈ result) ∧ y.1.minSpecificity ≥ maxSourceSpec srcSpec x.1 ∧ sup y.1 x.1 = true) := by
+        intro result' hsub ⟨h1, y, hy, h2, h3⟩
+        refine ⟨h1, y, ?_, h2, h3⟩
+        rcases hy with hy | hy
+        · exact Or.inl (List.mem_cons_of_mem _ hy)
+        · rcases hsub y hy with e | hr
+          · exact Or.inl (by simp [e])
+          · exact Or.inr hr
+      cases fl with
+      | true =>
+        unfold trimGo
+        split
+        · rename_i f rest' hp
+          rcases ih (f :: rest') n x hx' with h | h | h
+          · exact Or.inl h
+          · exact Or.inr (Or.inl h)
+          · exact Or.inr (Or.inr (widen _ (fun y hy => Or.inr (pullOut_mem c1 n result f rest' hp y hy)) h))
+        · rcases ih ((c1, true) :: result) (n + 1) x hx' with h | h | h
+          · exact Or.inl h
+          · exact Or.inr (Or.inl h)
+          · exact Or.inr (Or.inr (widen _ (fun y hy => by simpa using hy) h))
+      | false =>
+        unfold trimGo
+        simp only
+        split
+        · rcases ih result n x hx' with h | h | h
+          · exact Or.inl h
+          · exact Or.inr (Or.inl h)
+          · exact Or.inr (Or.inr (widen _ (fun y hy => Or.inr hy) h))
+        · rcases ih ((c1, false) :: result) n x hx' with h | h | h
+          · exact Or.inl h
+          · exact Or.inr (Or.inl h)
+          · exact Or.inr (Or.inr (widen _ (fun y hy => by simpa using hy) h))
+
+/-- **second law, as `trim` (mod.rs:775) implements it**: of the selectors handed to `trim`, an ORIGINAL one is
+    never lost (it, or an equal copy, is kept), and a GENERATED one is dropped only if some other selector of
+    the same list is its superselector AND is at least as specific as the extender that produced the dropped
+    one (`min_specificity ≥ max over its simples of source_specificity`, mod.rs:815–848) — so trimming
+    never lowers the specificity with which an element is matched below the extender's. -/
+theorem C10_trim_second_law (sup : Complex → Complex → Bool) (srcSpec : Simple → Nat) (sels : List Flagged)
+    (x : Flagged) (hx : x ∈ sels) :
+    x ∈ trim sup srcSpec sels ∨
+    (x.2 = true ∧ ∃ y ∈ trim sup srcSpec sels, y.1 = x.1) ∨
+    (x.2 = false ∧ ∃ y ∈ sels, y.1.minSpecificity ≥ maxSourceSpec srcSpec x.1 ∧ sup y.1 x.1 = true) := by
+  unfold trim
+  split
+  · exact Or.inl hx
+  · rcases trimGo_floor sup srcSpec sels.reverse [] 0 x (by simpa using hx) with h | h | ⟨h1, y, hy, h2⟩
+    · exact Or.inl h
+    · exact Or.inr (Or.inl h)
+    · refine Or.inr (Or.inr ⟨h1, y, ?_, h2⟩)
+      rcases hy with hy | hy
+      · simpa using hy
+      · cases hy
+
+-- non-vacuity: `a b` (generated, source specificity 1) is dropped for `b`; with source specificity 1001 it is kept
+example : trim (isSuperComplex0 false) (fun _ => 1)
+    [([.compound [.type ['b']]], true), ([.compound [.type ['a']], .compound [.type ['b']]], false)]
+    = [([.compound [.type ['b']]], true)] := by decide +kernel
+example : trim (isSuperComplex0 false) (fun _ => 1001)
+    [([.compound [.type ['b']]], true), ([.compound [.type ['a']], .compound [.type ['b']]], false)]
+    = [([.compound [.type ['b']]], true), ([.compound [.type ['a']], .compound [.type ['b']]], false)] := by decide +kernel
+
+/-! ### monotonicity through any number of re-extensions -/
+
+theorem cList_of_matches (E : Compound) (T : Simple) (L : SelList) (hL : ∀ X ∈ L, noSelX X = true) (p : Ctx)
+    (hm : matchesList L p = true) : cList (credit1 E T) L p = true := by
+  unfold cList
+  unfold matchesList at hm
+  rw [List.any_eq_true] at hm ⊢
+  obtain ⟨X, hX, hXm⟩ := hm
+  refine ⟨X, hX, ?_⟩
+  rw [cComplex_credC _ _ _ (hL X hX)]
+  obtain ⟨q, hq⟩ := (matchesComplex_GLX X p).1 hXm
+  refine ⟨q, ?_⟩
+  exact GLX_mono mComp (credC E T) (fun c q h => by
+    simp only [credC, List.all_eq_true, Bool.or_eq_true]
+    intro s hs; exact Or.inl (mComp_mem h hs)) X q p hq
+
+/-- **monotonicity of extension** (selectors without `:not()` — here: without any selector pseudo): whatever a
+    selector matched before is still matched after ANY number of successive (re-)extensions, chains included. -/
+theorem C10_monotone_chain (sw : Switches) (hsw : sw.supAsFound = false) (m : Option Nat)
+    (steps : List (Ext × Name × List Ext)) (l out : List Flagged) (h : ChainRun sw m steps l out) (p : Ctx)
+    (hm : matchesList (l.map (·.1)) p = true) : matchesList (out.map (·.1)) p = true := by
+  induction h with
+  | nil l => exact hm
+  | cons e n all rest l l' l'' ht hE hn hl hx _ ih =>
+    apply ih
+    rw [extendList_sem sw hsw e all hE m l l' hl hx p]
+    apply cList_of_matches _ _ _ _ p hm
+    intro X hX
+    simp only [List.mem_map] at hX
+    obtain ⟨x, hx', rfl⟩ := hX
+    exact hl x hx'
+
+/-! ### @media: the general statement -/
+
+/-- **extension stays inside its `@media` block** (specified variant, any extender, target and media contexts): an
+    extension declared inside `@media m` never rewrites the compound `T` of a rule in another media context (or at the
+    top level) — the run stops with "You may not @extend selectors across media queries." — while the code as found
+    (D16, `assert_compatible_media_context` commented out, extension.rs:68) rewrites it to `T, E`. -/
+theorem C10_media_confined_general (e : Ext) (all : List Ext) (mm : Nat) (rm : Option Nat) (io : Bool)
+    (hm : e.media = some mm) (hr : rm ≠ some mm) :
+    extendCompound Switches.spec [e] all rm io [e.target] = .error .crossMedia ∧
+    extendCompound Switches.asFound [e] all rm io [e.target]
+      = .ok (some [[.compound [e.target]], [.compound e.extender]]) := by
+  simp [extendCompound, buildOptions, extendersOf, checkMedia, mediaOk, origOpt, extOpt, Switches.spec,
+    Switches.asFound, hm, hr]
+
+/-- … and inside the same block, or for an extension declared at the top level, it applies -/
+theorem C10_media_same_block_applies (sw : Switches) (e : Ext) (all : List Ext) (rm : Option Nat) (io : Bool)
+    (hm : e.media = none ∨ e.media = rm) :
+    extendCompound sw [e] all rm io [e.target] = .ok (some [[.compound [e.target]], [.compound e.extender]]) := by
+  rcases hm with hm | hm
+  · simp [extendCompound, buildOptions, extendersOf, checkMedia, mediaOk, origOpt, extOpt, hm]
+  · cases hr : rm <;> simp [extendCompound, buildOptions, extendersOf, checkMedia, mediaOk, origOpt, extOpt, hm, hr]
+
+example : extendCompound Switches.spec [⟨[.cls ['b']], .cls ['a'], false, some 1⟩] [] none true [.cls ['a']]
+    = .error .crossMedia :=
+  (C10_media_confined_general ⟨[.cls ['b']], .cls ['a'], false, some 1⟩ [] 1 none true rfl (by decide)).1
+
+/-! ### chains and cycles as whole stylesheets (`extend_existing_extensions`, mod.rs:1042) -/
+
+private def rCls (n : Char) (m : Option Nat := none) : Item := .rule [[.compound [.cls [n]]]] m
+private def eCls (a b : Char) : Item := .extend [[.compound [.cls [a]]]] (.cls [b]) false none
+private def sCls (l : List Char) : SelList := l.map fun n => [.compound [.cls [n]]]
+
+/-- **a chain of three hops, whole stylesheets, every position of the target rule**: `.a{} .b{@extend .a}
+    .c{@extend .b} .d{@extend .c}` — the model of `add_extension` with `extend_existing_extensions` (one structural
+    pass over the extensions that mention the new target: no fuel, no fixpoint loop — the code has none) gives the
+    rule `.a` all four members whether it is written first, last or in between. -/
+theorem C10_chain_sheet_three_hops :
+    runX ⟨Switches.spec, false⟩ [rCls 'a', rCls 'b', eCls 'b' 'a', rCls 'c', eCls 'c' 'b', rCls 'd', eCls 'd' 'c']
+      = .ok [sCls ['a', 'b', 'c', 'd'], sCls ['b', 'c', 'd'], sCls ['c', 'd'], sCls ['d']] ∧
+    runX ⟨Switches.spec, false⟩ [rCls 'b', eCls 'b' 'a', rCls 'c', eCls 'c' 'b', rCls 'd', eCls 'd' 'c', rCls 'a']
+      = .ok [sCls ['b', 'c', 'd'], sCls ['c', 'd'], sCls ['d'], sCls ['a', 'b', 'c', 'd']] ∧
+    runX ⟨Switches.spec, false⟩ [rCls 'd', eCls 'd' 'c', rCls 'b', eCls 'b' 'a', rCls 'a', rCls 'c', eCls 'c' 'b']
+      = .ok [sCls ['d'], sCls ['b', 'c', 'd'], sCls ['a', 'b', 'c', 'd'], sCls ['c', 'd']] := by
+  decide +kernel
+
+/-- **a cycle terminates and closes**: `.a{@extend .b} .b{@extend .a}` followed by `.c{@extend .a}` — every member
+    of the cycle ends up with all three selectors (the derived extensions `.b → .b`, `.c → .b` are registered by the
+    single pass of `extend_existing_extensions`). -/
+theorem C10_cycle_sheet_closes :
+    runX ⟨Switches.spec, false⟩ [rCls 'a', eCls 'a' 'b', rCls 'b', eCls 'b' 'a', rCls 'c', eCls 'c' 'a']
+      = .ok [sCls ['a', 'c', 'b'], sCls ['b', 'a', 'c'], sCls ['c']] := by
+  decide +kernel
+
+/-- Soundness of `weave` (open): every woven complex matches only contexts matched by each of the woven
+    selectors read with the common target.  Proved so far: the single-component case
+    (`C10_weave_singletons_concat`); the descendant/child fragment and the specified sibling variant are
+    compared with grass (text) and judged by the credited-context oracle only. -/
+def C10_weave_sound_full : Prop :=
+  ∀ (p1 p2 : Complex) (t : Compound) (r : Complex) (p : Ctx),
+    r ∈ (weaveParentsTop false p1 p2).getD [] → matchesComplex (r ++ [.compound t]) p = true →
+      matchesComplex (p1 ++ [.compound t]) p = true ∧ matchesComplex (p2 ++ [.compound t]) p = true
 
 end Grass.Extend
